@@ -73,4 +73,21 @@ PROPS = {
             "random mode keeps AAC object types < 32 (known finding K1); the grid exercises them and attributes audio_profile mismatches for AOT >= 32 to K1 only",
         ],
     },
+
+    "C17": {
+        "level": "exploration",
+        "profiles": ["chk", "rel"],
+        "death_is_violation": True,
+        "min_evals": {"quick": 4000, "thorough": 50000},
+        "rule": ("documented-domain histories are perturbed into the degenerate domain by 1-3 of 14 argument classes (movie/track timescale 0, "
+                 "weird language strings, parameter-set lengths 0..3 and >= 65535, all durations u32::MAX, extreme offsets, a 16 MiB+ sample, "
+                 "write_end twice, writes/add_track after write_end, no tracks, unknown track ids, missing write_end, dimension extremes) plus "
+                 "directed boundary histories; every call runs under a panic monitor in both build profiles; when every call returned Ok and the "
+                 "history ends with write_end the C01 and C02 oracles are applied to the calls the muxer accepted. distinct_nontrivial = distinct "
+                 "(degenerate class, call kind, outcome) triples observed."),
+        "assumptions": [
+            "samples >= 4 GiB (length truncated to u32) are not exercised: a single 4 GiB buffer per case is outside the run budget (DESIGN 7, F35)",
+            "the C14 oracle is not applied to degenerate configurations (it is stated for the documented domain only)",
+        ],
+    },
 }
